@@ -32,6 +32,11 @@ def run(ctx):
                   'left IDLE (shared with C01.R14)', 'DT + AGREE')
     from mstatic.rules import cmdcalc
     cmdcalc.next_commands(ctx, r5)
+    r6 = ctx.rule('R6', 'a join refresh that fires while the workflow is '
+                  'PAUSED still takes effect (it is never scheduled again)',
+                  'COVER')
+    from mstatic.rules import shared as _sh
+    _sh.refresh_covers_unfinished(ctx, r6)
 
 
 def _run(ctx):
